@@ -467,7 +467,8 @@ def rule_r7(F, rep):
                  "non-string pattern of YAML 1.2.2 section 10.3.2, contains no empty key and no character outside [0-9A-Za-z/_.-]")
     fn = F.fn(M + "is_safe_yaml_plain")
     rep.fn(fn)
-    ex = strpred.Extract(F, rep, fn, lambda clo: closure_bool_table(F, rep, clo, "char"))
+    ex = strpred.Extract(F, rep, fn, lambda clo: closure_bool_table(F, rep, clo, "char"),
+                         byte_table=lambda clo: closure_bool_table(F, rep, clo, "u8"))
     acc = ex.run()
     al = ex.al
     rep.states += acc.n
